@@ -52,6 +52,11 @@ def run(ctx):
     c = _cases(ctx, "WsFrameStreams", "MC_WsFrameStreams_" + tier, "c11-ws.cases", ctx.pick(600, 3000))
     ctx.replay(rep, c, label="R/WsFrameStreams", args=args, timeout=ctx.pick(600, 3000), env=ENV)
     os.unlink(c)
+    # deeper fragmentation (4 fragments with control frames in every gap), without cuts and hostile frames
+    deep = ctx.pick("MC_WsFrameStreams_deep5", "MC_WsFrameStreams_deep")
+    c = _cases(ctx, "WsFrameStreams", deep, "c11-wsd.cases", ctx.pick(600, 3000), ignore_cov=("Cut", "GoHostile", "Next"))
+    ctx.replay(rep, c, label="R/" + deep[3:], args=args, timeout=ctx.pick(600, 3000), env=ENV)
+    os.unlink(c)
     # V: what the library itself puts on the wire, library <-> library, handshakes, long random streams
     files = ctx.record(rec, ctx.pick(12, 48), ctx.pick(250, 1200), "V/WsFrame", extra_args=["--mode", "0" if ctx.quick else "1"],
                        timeout=ctx.pick(300, 1800), env=ENV)
